@@ -240,6 +240,14 @@ def setter_keeps_magnitude(repo, run):
         is_self_attr(t, "__dt") for t in (st.targets if isinstance(st, ast.Assign) else [st.target]))]
     if not stores:
         raise AnalysisError("dt setter: no store to the step found")
+    # the setter is also how integrate() stores the step it is working with, on every iteration: it must write nothing else (the value reset() restores, settings...)
+    others = [st for st in walk_no_nested(fn) if isinstance(st, (ast.Assign, ast.AugAssign)) and st not in stores and any(
+        isinstance(x, ast.Attribute) and isinstance(x.ctx, ast.Store) and is_self_attr(x) for t in (st.targets if isinstance(st, ast.Assign) else [st.target]) for x in ast.walk(t))]
+    run.judged(rid, "dt setter: other attribute stores: %s" % [src(o)[:40] for o in others], ok=not others)
+    for o in others:
+        run.report("C04.8", DS, o, "the dt setter also stores `%s`: integrate() assigns the step through this setter on every iteration (and when it halves a step longer than the span), "
+                   "so what is stored here follows the run -- e.g. the step that reset() restores becomes the last internal step instead of the requested one, and a "
+                   "fixed-step run after reset() no longer takes the requested step" % src(o.targets[0] if isinstance(o, ast.Assign) else o.target))
     for st in stores:
         v = st.value if isinstance(st, ast.Assign) else None
         while isinstance(v, ast.Call) and (fname(v) or "").split(".")[-1] in ("asarray", "array", "copy", "clone", "astype", "to_float", "float") and v.args:
